@@ -30,7 +30,7 @@ Proof.
   { pose proof (step_ds _ _ _ _ E) as H. unfold dstat in H. inversion H as [[A B C]]. unfold sE in A.
     rewrite <- (map_length fE (emitters st')), A, map_length. reflexivity. }
   destruct (nth_error (emitters st') j) as [m'|] eqn:Hj'; [|apply nth_error_None in Hj'; assert (j < length (emitters st)) by (apply nth_error_Some; congruence); lia].
-  destruct (emitter_back _ _ _ _ _ _ E Hj') as [m0 [H0 [A [B C]]]]. rewrite Hj in H0. inversion H0; subst m0.
+  destruct (emitter_back _ _ _ _ _ _ E Hj') as [m0 [H0 [A [B [C _]]]]]. rewrite Hj in H0. inversion H0; subst m0.
   destruct (emitter_static _ _ _ _ _ _ _ E Hj Hj') as [S1 S2]. exists m'. repeat split; auto.
 Qed.
 
@@ -90,7 +90,7 @@ Proof.
         -- (* the registration step moves mnew from 2 to 3 *)
            subst t. cbn [step] in E. unfold step_emnew in E. rewrite Ej, Em in E. destruct (nth_error (nodes st) (mnode m)) as [ndx|]; [|discriminate].
            destruct (holder ndx); [discriminate|]. inversion E; subst. cbn in Ej'. rewrite (nth_error_upd_eq _ _ _ _ Ej) in Ej'. inversion Ej'; subst m'. cbn. lia.
-  - intros j m' Ej' Ms M3. destruct (emitter_back _ _ _ _ _ _ E Ej') as [m [Ej [_ [Nd Mn]]]].
+  - intros j m' Ej' Ms M3. destruct (emitter_back _ _ _ _ _ _ E Ej') as [m [Ej [_ [Nd [Mn _]]]]].
     destruct (emitter_static _ _ _ _ _ _ _ E Ej Ej') as [_ S2].
     destruct (Nat.le_gt_cases 3 (mnew m)) as [Ge|Lt].
     + destruct (K3 j m Ej ltac:(congruence) Ge) as [nd [Hn Hk]]. destruct (FW _ _ Hn) as [nd' [Hn' Hk']]. exists nd'. rewrite Nd by lia. auto.
